@@ -692,6 +692,7 @@ def _eval_struct (repo, module, e, env, cls):
       except _Unknown: pass
   return eval_env(repo, module, e, sub, cls)
 
+from .cfg import _RAISY as _cfg_RAISY
 def paths_under (repo, module, g, env, start, stops, cls=None, limit=200, track=True, on_node=None, track_start=False, exc=False):
   """enumerate paths start -> any node in `stops` following only branches
   consistent with env; simple local assignments update a per-path copy of the
@@ -841,6 +842,10 @@ def paths_under (repo, module, g, env, start, stops, cls=None, limit=200, track=
         # the statement raised: control goes to the handler with the state *before* the statement (only on request, and only
         # into handlers of this function - an exception that leaves the function ends the path)
         if not exc or m.kind != 'handler': continue
+        # the CFG also hangs an 'exc' edge on the predecessors of a raising statement ("raised before any effect"); for a walk that carries
+        # values that edge is the raising statement's own edge taken with its pre-state - following it from a statement that cannot raise
+        # would enter the handler with the state before *that* statement
+        if n.ast is not None and not isinstance(n.ast, (ast.For, ast.With)) and not any(isinstance(x_, _cfg_RAISY) for x_ in ast.walk(n.ast)): continue
         key = (n.id, m.id)
         if key in used: continue
         stack.append((m, path + (m,), e, used | {key}, loops))
